@@ -549,6 +549,12 @@ class SymBV:
     def to_int(self):
         return SymInt(z3.BV2Int(self.z, is_signed=False))
 
+    def __neg__(self):
+        return SymInt(-z3.BV2Int(self.z, is_signed=False))
+
+    def __pos__(self):
+        return self
+
     def _cmp(self, o, f_bv, f_int):
         if isinstance(o, SymInt):
             return SymBool(f_int(z3.BV2Int(self.z, is_signed=False), o.z))
@@ -653,6 +659,14 @@ class SymBytes:
     def __hash__(self):
         _unsupported("hash(SymBytes)")
 
+    def __mul__(self, n):
+        return SymBytes(self.e * _to_index(n))
+
+    __rmul__ = __mul__
+
+    def __bool__(self):
+        return len(self.e) > 0
+
     def startswith(self, prefix, start=0):
         if isinstance(prefix, tuple):
             out = False
@@ -692,6 +706,16 @@ class SymBytes:
 
     def __repr__(self):
         return "<symbytes len=%d>" % len(self.e)
+
+
+class SymByteArray(SymBytes):
+    def __setitem__(self, i, v):
+        if isinstance(i, slice):
+            a = 0 if i.start is None else _to_index(i.start)
+            b = len(self.e) if i.stop is None else _to_index(i.stop)
+            self.e[a:b] = list(v)
+        else:
+            self.e[_to_index(i)] = v
 
 
 def _to_index(i):
@@ -763,6 +787,80 @@ class _IntShadowMeta(type):
 class IntShadow(metaclass=_IntShadowMeta):
     """``int`` stand-in: IntShadow(x) == sym_int(x); isinstance(p, IntShadow) true for proxies"""
     from_bytes = staticmethod(_from_bytes)
+
+
+def _const_or_self(e):
+    if isinstance(e, (SymBV, SymInt)):
+        z = z3.simplify(e.z)
+        if z3.is_bv_value(z) or z3.is_int_value(z):
+            return z.as_long()
+    return e
+
+
+def sym_bytes(x=b"", *a):
+    """shadow for builtin ``bytes``/``bytearray``"""
+    if isinstance(x, (bytes, bytearray)):
+        return bytes(x)
+    if isinstance(x, int):
+        return SymBytes([0] * x)
+    if isinstance(x, str):
+        return bytes(x, *a)
+    elems = [_const_or_self(e) for e in x]
+    if all(isinstance(e, int) for e in elems):
+        return bytes(elems)
+    return SymBytes(elems)
+
+
+def sym_bytearray(x=b"", *a):
+    if isinstance(x, int):
+        return SymByteArray([0] * x)
+    return SymByteArray(list(x))
+
+
+def sym_memoryview(x):
+    return x
+
+
+class UFTable:
+    """byte table abstracted as an uninterpreted function BV8->BV8; ``inverse`` names a
+    table proved (elsewhere) to be its inverse so that inv[tab[x]] rewrites to x"""
+
+    def __init__(self, name, n=256):
+        self.f = z3.Function(name, z3.BitVecSort(8), z3.BitVecSort(8))
+        self.inverse = None
+        self.n = n
+
+    def _arg(self, x):
+        if isinstance(x, SymBV):
+            z = x.z
+            if x.w > 8:
+                z = z3.Extract(7, 0, z)
+            return z
+        if isinstance(x, int):
+            return z3.BitVecVal(x, 8)
+        raise Unsupported("table index")
+
+    def __getitem__(self, x):
+        z = self._arg(x)
+        inv = self.inverse
+        if inv is not None and z3.is_app(z) and z.num_args() == 1 and z.decl().eq(inv.f):
+            return SymBV(z.arg(0), 8)
+        return SymBV(self.f(z), 8)
+
+    def __len__(self):
+        return self.n
+
+
+class FnTable(UFTable):
+    """byte table given by a z3-level function of the index (semantic abstraction)"""
+
+    def __init__(self, fn, n=256):
+        self.fn = fn
+        self.n = n
+        self.inverse = None
+
+    def __getitem__(self, x):
+        return SymBV(z3.simplify(self.fn(self._arg(x))), 8)
 
 
 def sym_len(x):
@@ -1178,15 +1276,18 @@ class SymCtx(_Base):
         return bool(self.fresh_bool(name))
 
     def conc(self, v, lo, hi):
-        """fork a small symbolic int into its concrete values"""
+        """fork a small symbolic int into its concrete values (binary splitting)"""
         if isinstance(v, int):
             return v
         z = v.z
-        for k in range(lo, hi):
-            if self.decide(z == k):
-                return k
-        self.assume(z == hi)
-        return hi
+        while lo < hi:
+            mid = (lo + hi) // 2
+            if self.decide(z <= mid):
+                hi = mid
+            else:
+                lo = mid + 1
+        self.assume(z == lo)
+        return lo
 
     def uf(self, name, *sorts):
         return z3.Function(name, *sorts)
@@ -1269,19 +1370,24 @@ class SymCtx(_Base):
             i = len(self.trace)
             if i < len(self.prefix):
                 # replay: the recorded condition tells the value
-                c, _ = self.run.cond_cache[tuple(self.prefix[:i])]
+                c, val = self.run.cond_cache[tuple(self.prefix[:i])]
             else:
+                self.solver.push()
+                probe = z3.FreshConst(z.sort(), "cz")
+                self.solver.add(probe == z)
                 r = self.solver.check()
                 self.run.stats["checks"] += 1
                 if r != z3.sat:
+                    self.solver.pop()
                     if r == z3.unknown:
                         self.maybe = True
                         raise BoundExceeded("concretize: solver unknown")
                     raise PathAbort()
-                mv = self.solver.model().eval(z, model_completion=True)
+                mv = self.solver.model().eval(probe, model_completion=True)
+                self.solver.pop()
+                val = mv.as_long()
                 c = (z == mv)
-                self.run.cond_cache[tuple(t for _, t in self.trace)] = (c, None)
-            val = c.arg(1).as_long()
+                self.run.cond_cache[tuple(t for _, t in self.trace)] = (c, val)
             if self.decide_raw(c):
                 return val
 
@@ -1312,6 +1418,7 @@ class SymCtx(_Base):
         if isinstance(cond, (SymBool, SymInt)):
             cond = _zb(cond)
         if cond is True or (z3.is_bool(cond) and z3.is_true(z3.simplify(cond))):
+            self.run.stats["q_simplified"] = self.run.stats.get("q_simplified", 0) + 1
             return
         t0 = time.time()
         self.solver.push()
